@@ -624,6 +624,10 @@ func (g *Gen) Next(m *model.DB) Op {
 		if g.count >= c.NOps && g.R.Chance(0.5) {
 			return Op{K: "AfterClose", Coll: g.pickColl(m, true)}
 		}
+		if g.R.Chance(0.05) {
+			coll := g.pickColl(m, true)
+			return Op{K: "DocAPI", Docs: []val.V{val.Wrap(g.doc(g.R.Bool()))}, Q: g.query(coll, m.Colls[coll], 1, 0, 0)}
+		}
 		if g.R.Chance(0.04) {
 			coll := g.pickColl(m, true)
 			if g.R.Bool() {
